@@ -79,15 +79,18 @@ def lab_spec(draw, name, *, kind=None, max_rows=8, max_cols=6, regime="roomy", g
         vmin = 0.0 if (min_zero or (min_zero is None and draw(st.booleans()))) else draw(num(max(q, 0.01), 15))
         hi_init = vmax
     nreal = (1 if kind == "trough" else rows) * cols
+    # few draws (Hypothesis' entropy buffer is small): a handful of levels laid out by a fixed pattern
     style = draw(st.sampled_from(["uniform", "varied", "varied", "some-empty"])) if filled is None else "varied"
     if style == "uniform":
         v = draw(num(0, hi_init))
         flat = [v] * nreal
     else:
-        flat = draw(st.lists(num(0, hi_init), min_size=nreal, max_size=nreal))
+        levels = draw(st.lists(num(0, hi_init), min_size=1, max_size=4))
+        stride = draw(st.integers(1, 3))
+        flat = [levels[(i * stride + i // max(cols, 1)) % len(levels)] for i in range(nreal)]
         if style == "some-empty":
-            mask = draw(st.lists(st.booleans(), min_size=nreal, max_size=nreal))
-            flat = [0.0 if m else v for v, m in zip(flat, mask)]
+            bits = draw(st.integers(0, 2**12 - 1))
+            flat = [0.0 if bits >> (i % 12) & 1 else v for i, v in enumerate(flat)]
     if filled:
         flat = [v if v > 0 else float(int(hi_init / 2)) for v in flat]
     flat = [min(float(v), vmax) for v in flat]
